@@ -32,7 +32,13 @@ import (
 //	kind "self":          expression  recv                        (Buffer.Bytes(), Buffer.String())
 //	kind "mut":           statement   recv = f(recv, args…)       (recv must be assignable)
 //	kind "set":           statement   recv = <zero value / args[0]>  (Reset(), Store(v))
+//	kind "addret":        statement   recv = recv + arg (at width f); lhs = recv          (atomic Add, sequential meaning)
+//	kind "cas":           statement   if recv == old { recv = new; lhs = true } else { lhs = false }   (CompareAndSwap)
 //	kind "extstmt":       statement   lhs… = f(recv?, args…)      (several results, external intrinsic)
+//	kind "mutext":        statement   recv, lhs… = f(recv, args…) (external intrinsic that also updates its receiver)
+//	kind "funOn":         statement   lhs… = translated function f(args…) called on a HANDLE (a local of a named type):
+//	                                  the whitelist entry declares that the handle designates the object whose fields
+//	                                  are part of this function's field environment
 //	kind "fun":           statement   lhs… = translated function f(args…) on the same receiver
 type shim struct {
 	kind string
@@ -47,14 +53,15 @@ type fieldSpec struct {
 }
 
 type transFunc struct {
-	file   string
-	recv   string // receiver type name, "" for a plain function
-	name   string
-	lean   string               // name in the generated funs table
-	fields map[string]fieldSpec // receiver field → GoMini field
-	types  map[string]string    // Go type text → static type (named types of zap and the std lib)
-	consts map[string]string    // named constants: Go text → integer literal (decimal) or "bool:true"
-	calls  map[string]shim      // "<static type or package>.<Name>" → meaning
+	file    string
+	recv    string // receiver type name, "" for a plain function
+	name    string
+	lean    string                 // name in the generated funs table
+	fields  map[string]fieldSpec   // receiver field → GoMini field
+	types   map[string]string      // Go type text → static type (named types of zap and the std lib)
+	consts  map[string]string      // named constants: Go text → integer literal (decimal) or "bool:true"
+	structs map[string][]fieldSpec // struct types passed by value: static type "struct:<name>" is a list of these fields
+	calls   map[string]shim        // "<static type or package>.<Name>" → meaning
 }
 
 type transSpec struct {
@@ -64,18 +71,19 @@ type transSpec struct {
 
 // ---------------------------------------------------------------- static types
 
-var intTypes = map[string]string{"u8": ".u8", "u32": ".u32", "u64": ".u64", "int": ".int", "i64": ".i64"}
+var intTypes = map[string]string{"u8": ".u8", "u32": ".u32", "u64": ".u64", "int": ".int", "i64": ".i64", "i8": ".i8", "i32": ".i32"}
 
 var intBounds = map[string][2]string{
 	"u8": {"0", "255"}, "u32": {"0", "4294967295"}, "u64": {"0", "18446744073709551615"},
 	"int": {"-9223372036854775808", "9223372036854775807"}, "i64": {"-9223372036854775808", "9223372036854775807"},
+	"i8": {"-128", "127"}, "i32": {"-2147483648", "2147483647"},
 }
 
 func isInt(t string) bool      { _, ok := intTypes[t]; return ok }
 func isUnsigned(t string) bool { return t == "u8" || t == "u32" || t == "u64" }
 
 var goBasic = map[string]string{
-	"int": "int", "int64": "i64", "uint8": "u8", "byte": "u8", "uint32": "u32", "uint64": "u64",
+	"int": "int", "int64": "i64", "int8": "i8", "int32": "i32", "uint8": "u8", "byte": "u8", "uint32": "u32", "uint64": "u64",
 	"bool": "bool", "string": "string", "error": "error",
 }
 
@@ -97,6 +105,7 @@ type xl struct {
 	results []string // result types
 	legend  []string
 	loops   []string
+	subst   map[*ast.CallExpr]tx // calls hoisted out of an if-condition
 	stmts_  int
 }
 
@@ -235,16 +244,26 @@ func (x *xl) namedConst(n ast.Node, txt string) (tx, bool) {
 			return tx{typ: "untyped", val: constant.MakeBool(s == "bool:true")}, true
 		}
 		if i := strings.Index(s, ":"); i > 0 { // typed constant "u8:128"
-			v := constant.MakeFromLiteral(s[i+1:], token.INT, 0)
+			v := intConst(s[i+1:])
+			if v.Kind() == constant.Unknown {
+				x.fail(n, "bad constant %q in whitelist entry", s)
+			}
 			return x.constTo(n, tx{typ: "untyped", val: v}, s[:i]), true
 		}
-		v := constant.MakeFromLiteral(s, token.INT, 0)
+		v := intConst(s)
 		if v.Kind() == constant.Unknown {
 			x.fail(n, "bad constant %q in whitelist entry", s)
 		}
 		return tx{typ: "untyped", val: v}, true
 	}
 	return tx{}, false
+}
+
+func intConst(s string) constant.Value {
+	if strings.HasPrefix(s, "-") {
+		return constant.UnaryOp(token.SUB, constant.MakeFromLiteral(s[1:], token.INT, 0), 0)
+	}
+	return constant.MakeFromLiteral(s, token.INT, 0)
 }
 
 // place resolves an expression that denotes a variable: local or receiver field.
@@ -306,6 +325,16 @@ func (x *xl) expr(e ast.Expr) tx {
 		if c, ok := x.namedConst(e, exprString(e)); ok {
 			return c
 		}
+		if id, ok := t.X.(*ast.Ident); ok {
+			if v, ok := x.lookup(id.Name); ok && strings.HasPrefix(v.typ, "struct:") {
+				for i, f := range x.fn.structs[v.typ[7:]] {
+					if f.lean == t.Sel.Name {
+						return tx{lean: fmt.Sprintf("(.index (.loc %s) (.lit (.int %d)))", leanStr(v.lean), i), typ: f.typ}
+					}
+				}
+				x.fail(e, "field %s of %s is not declared in the whitelist entry", t.Sel.Name, v.typ)
+			}
+		}
 		x.fail(e, "selector %s is neither a mapped receiver field nor a declared constant", exprString(e))
 	case *ast.UnaryExpr:
 		a := x.expr(t.X)
@@ -335,6 +364,9 @@ func (x *xl) expr(e ast.Expr) tx {
 	case *ast.BinaryExpr:
 		return x.binary(t)
 	case *ast.CallExpr:
+		if v, ok := x.subst[t]; ok {
+			return v
+		}
 		r, isStmt := x.callExpr(t)
 		if isStmt {
 			x.fail(e, "call %s has no single value here", exprString(t.Fun))
@@ -495,6 +527,8 @@ type tcall struct {
 	targetLV string
 	value    string
 	pre      []string // extfld: places assigned before the declared results
+	recvRd   string   // addret / cas: the receiver as an expression
+	old, new string   // cas
 }
 
 var pendingCall *tcall
@@ -642,6 +676,28 @@ func (x *xl) callExpr(c *ast.CallExpr) (tx, bool) {
 		}
 		pendingCall = &tcall{ctor: "mut", targetLV: recvLV, value: v}
 		return tx{}, true
+	case "addret":
+		if !hasRecv || len(c.Args) != 1 || !isInt(sh.f) {
+			x.fail(c, "shim addret on %s", key)
+		}
+		d := x.constTo(c.Args[0], x.expr(c.Args[0]), sh.f)
+		if d.typ != sh.f {
+			x.fail(c, "%s: argument of type %s, receiver holds %s", key, d.typ, sh.f)
+		}
+		pendingCall = &tcall{ctor: "addret", targetLV: recvLV, recvRd: recvLean, res: []string{sh.f},
+			value: "(.bin (.add " + intTypes[sh.f] + ") " + recvLean + " " + d.lean + ")"}
+		return tx{}, true
+	case "cas":
+		if !hasRecv || len(c.Args) != 2 || !isInt(sh.f) {
+			x.fail(c, "shim cas on %s", key)
+		}
+		o := x.constTo(c.Args[0], x.expr(c.Args[0]), sh.f)
+		n := x.constTo(c.Args[1], x.expr(c.Args[1]), sh.f)
+		if o.typ != sh.f || n.typ != sh.f {
+			x.fail(c, "%s: arguments of type %s, %s, receiver holds %s", key, o.typ, n.typ, sh.f)
+		}
+		pendingCall = &tcall{ctor: "cas", targetLV: recvLV, recvRd: recvLean, old: o.lean, new: n.lean, res: []string{"bool"}}
+		return tx{}, true
 	case "extstmt":
 		if hasRecv {
 			args = append(args, recvLean)
@@ -665,6 +721,21 @@ func (x *xl) callExpr(c *ast.CallExpr) (tx, bool) {
 		}
 		addArgs()
 		pendingCall = &tcall{ctor: "callX", f: sh.f, args: args, res: sh.res, pre: lvs}
+		return tx{}, true
+	case "mutext":
+		if !hasRecv {
+			x.fail(c, "shim mutext on %s needs an assignable receiver", key)
+		}
+		args = append(args, recvLean)
+		addArgs()
+		pendingCall = &tcall{ctor: "callX", f: sh.f, args: args, res: sh.res, pre: []string{recvLV}}
+		return tx{}, true
+	case "funOn":
+		if !hasRecv {
+			x.fail(c, "shim funOn on %s needs a handle", key)
+		}
+		addArgs()
+		pendingCall = &tcall{ctor: "call", f: sh.f, args: args, res: sh.res}
 		return tx{}, true
 	case "fun":
 		if !isSelf {
@@ -770,6 +841,53 @@ func (x *xl) appendCall(c *ast.CallExpr) tx {
 		x.fail(c, "append(%s, %s)", s.typ, v.typ)
 	}
 	return tx{lean: "(.call \"append\" [" + s.lean + ", " + v.lean + "])", typ: s.typ}
+}
+
+// hoist: a call with a statement-level meaning (mutation, several results, translated function) may appear inside the
+// condition of an `if` when it is the FIRST thing the condition evaluates and is evaluated unconditionally — i.e. it
+// is reached from the root through parentheses, unary operators and LEFT operands only.  It is then executed before
+// the `if` into a fresh local, which replaces it in the condition.  Any other placement is outside the subset.
+func (x *xl) hoist(e ast.Expr) []string {
+	cur := e
+	for {
+		switch t := cur.(type) {
+		case *ast.ParenExpr:
+			cur = t.X
+			continue
+		case *ast.UnaryExpr:
+			cur = t.X
+			continue
+		case *ast.BinaryExpr:
+			cur = t.X
+			continue
+		case *ast.CallExpr:
+			if _, done := x.subst[t]; done {
+				return nil
+			}
+			if _, isStmt := x.tryCall(t); !isStmt {
+				return nil
+			}
+			pc := pendingCall
+			pendingCall = nil
+			if pc.ctor == "mut" || len(pc.res) != 1 {
+				x.fail(t, "call %s has no single value here", exprString(t.Fun))
+			}
+			tmp := tvar{fmt.Sprintf("l%d", x.nloc), pc.res[0]}
+			x.nloc++
+			x.legend = append(x.legend, tmp.lean+" = (value of "+exprString(t.Fun)+"(…) in the condition) "+tmp.typ)
+			if x.subst == nil {
+				x.subst = map[*ast.CallExpr]tx{}
+			}
+			x.subst[t] = tx{lean: "(.loc " + leanStr(tmp.lean) + ")", typ: tmp.typ}
+			return []string{x.emitCall(t, pc, []string{"(.loc " + leanStr(tmp.lean) + ")"}, []string{tmp.typ})}
+		}
+		return nil
+	}
+}
+
+// tryCall is callExpr that reports "not a statement call" instead of failing on a call that is an ordinary expression.
+func (x *xl) tryCall(c *ast.CallExpr) (tx, bool) {
+	return x.callExpr(c)
 }
 
 // ---------------------------------------------------------------- statements
@@ -888,6 +1006,7 @@ func (x *xl) stmt(s ast.Stmt) string {
 		if t.Init != nil {
 			pre = append(pre, x.stmt(t.Init))
 		}
+		pre = append(pre, x.hoist(t.Cond)...)
 		c := x.defaulted(t.Cond, x.expr(t.Cond))
 		if c.typ != "bool" {
 			x.fail(t.Cond, "if condition of type %s", c.typ)
@@ -943,6 +1062,20 @@ func (x *xl) emitCall(n ast.Node, pc *tcall, lvs []string, ltyps []string) strin
 			x.fail(n, "a receiver-mutating call has no value")
 		}
 		return "(.assign [" + pc.targetLV + "] [" + pc.value + "])"
+	case "addret", "cas":
+		if len(lvs) > 1 {
+			x.fail(n, "one result, %d assigned", len(lvs))
+		}
+		if len(lvs) == 0 {
+			lvs = []string{".blank"}
+		}
+		if len(ltyps) == 1 && ltyps[0] != "_" && ltyps[0] != pc.res[0] {
+			x.fail(n, "result has type %s, assigned to %s", pc.res[0], ltyps[0])
+		}
+		if pc.ctor == "addret" {
+			return block([]string{"(.assign [" + pc.targetLV + "] [" + pc.value + "])", "(.assign [" + lvs[0] + "] [" + pc.recvRd + "])"})
+		}
+		return "(.ite (.bin .eq " + pc.recvRd + " " + pc.old + ")\n  (.assign [" + pc.targetLV + ", " + lvs[0] + "] [" + pc.new + ", (.lit (.bool true))])\n  (.assign [" + lvs[0] + "] [(.lit (.bool false))]))"
 	case "callX", "call":
 		if len(lvs) != 0 && len(lvs) != len(pc.res) {
 			x.fail(n, "%s has %d results, %d assigned", pc.f, len(pc.res), len(lvs))
